@@ -1039,3 +1039,15 @@ where
         Ok(os_ipc_channels_for_deserialization.borrow_mut()[index].to_receiver())
     })
 }
+
+/// Lengths of the four per-thread attachment tables of the calling thread (serialisation channels,
+/// serialisation regions, deserialisation channels, deserialisation regions).
+#[cfg(ipc_channel_verif)]
+pub fn verif_side_table_lens() -> [usize; 4] {
+    [
+        OS_IPC_CHANNELS_FOR_SERIALIZATION.with(|t| t.borrow().len()),
+        OS_IPC_SHARED_MEMORY_REGIONS_FOR_SERIALIZATION.with(|t| t.borrow().len()),
+        OS_IPC_CHANNELS_FOR_DESERIALIZATION.with(|t| t.borrow().len()),
+        OS_IPC_SHARED_MEMORY_REGIONS_FOR_DESERIALIZATION.with(|t| t.borrow().len()),
+    ]
+}
